@@ -249,6 +249,9 @@ def run_case(ctx, i, rng):
             feats.remove("shuffle")         # positional maps only on modules declared earlier in the file
             ctx.count("fenced:positional-with-forward-reference")
         mods = vmodel.gen_design(rng, feats)
+        if i % 3 == 1:
+            feats.append("ascending")       # some nets declared  wire [lo:hi] n;  (decided without drawing from rng)
+            ctx.count("feature:ascending-declarations")
         text = vmodel.write(mods, rng, feats)
         f = os.path.join(d, "x.v")
         with open(f, "w") as fh:
